@@ -413,6 +413,7 @@ where
         let strategy = mk_strategy();
         let stats = std::cell::RefCell::new(Stats::default());
         let failed = std::cell::Cell::new(false);
+        let first_failing: std::cell::RefCell<Option<(S, Failure)>> = std::cell::RefCell::new(None);
         let res = runner.run(&strategy, |s| {
           if !failed.get() && stop.load(Ordering::Relaxed) {
             // another shard found a violation: finish quickly
@@ -450,7 +451,7 @@ where
               Ok(())
             }
             Err(f) => {
-              if f.property != ctx.property {
+              if f.property != ctx.property && !survey {
                 if counting {
                   let mut st = stats.borrow_mut();
                   st.evaluations += 1;
@@ -477,6 +478,9 @@ where
                 *e += 1;
                 return Ok(());
               }
+              if !failed.get() {
+                *first_failing.borrow_mut() = Some((s.clone(), f.clone()));
+              }
               failed.set(true);
               stop.store(true, Ordering::Relaxed);
               Err(TestCaseError::fail(f.signature.clone()))
@@ -486,11 +490,24 @@ where
         total.lock().unwrap().merge(stats.into_inner());
         if let Err(TestError::Fail(_, minimal)) = res {
           // re-run the shrunk scenario through the plain interpreter to get the final failure
-          let failure = match exec(&minimal) {
-            Err(f) => f,
-            Ok(_) => Failure::new(&ctx.property, "nondeterministic", "shrunk scenario passed when re-run"),
+          // the shrunk scenario must fail again when run through the plain interpreter; if it
+          // does not (shrinking wandered through a failure that does not reproduce), fall back
+          // to the originally generated failing scenario
+          let mut found = match exec(&minimal) {
+            Err(f) if f.property == ctx.property => Some(Found { scenario: minimal, failure: f }),
+            _ => None,
           };
-          viols.lock().unwrap().push(Found { scenario: minimal, failure });
+          if found.is_none() {
+            if let Some((orig, f0)) = first_failing.borrow_mut().take() {
+              found = Some(match exec(&orig) {
+                Err(f) if f.property == ctx.property => Found { scenario: orig, failure: f },
+                _ => Found { scenario: orig, failure: Failure::new(&ctx.property, format!("nonreproducible/{}", f0.signature), format!("failed once, passed when re-run: {}", f0.message)) },
+              });
+            }
+          }
+          if let Some(fnd) = found {
+            viols.lock().unwrap().push(fnd);
+          }
         } else if let Err(TestError::Abort(r)) = res {
           eprintln!("proptest aborted: {r}");
           std::process::exit(2);
